@@ -207,6 +207,31 @@ def gen_case(r, nmax):
     return {"lp": lp.text("x"), "vecs": [[dy(x) for x in v] for v in vecs], "runs": runs, "family": lp.family}
 
 
+def gen_tall_case(r):
+    """many rows (30-60), few columns, rows of very different magnitude: the optimal basis is dominated by slacks, so the LU solves keep their
+    sparse pattern (CLUFactor::vSolveLeft / vSolveRight return set-up vectors only when the pattern is small against 0.1 * dim) and the scaling
+    exponents of the rows differ - the regime of the sparse branches of the inverse queries, which small LPs never reach"""
+    n = r.randint(2, 5)
+    m = r.randint(30, 60)
+    cols = [(F(r.randint(1, 5), 2 ** (j % 3)), F(0), F(8 * 2 ** (j % 3))) for j in range(n)]
+    rows = []
+    for i in range(m):
+        co = {}
+        for j in range(n):
+            if r.random() < 0.35:
+                co[j] = F(r.choice([1, 2, 3]) * 2 ** (2 * (i % 4)), 2 ** (j % 3))
+        if not co:
+            co[r.randrange(n)] = F(2 ** (2 * (i % 4)))
+        rows.append((None, co, F(r.choice([10, 13, 100]) * 2 ** (2 * (i % 4)))))
+    lp = lpgen.LP(True, F(0), cols, rows, "tall-sparse")
+    runs = []
+    for k in range(3):
+        cfg = {"representation": [1, 1, 2][k], "scaler": r.choice([2, 2, 1, 5, 6]), "persistentscaling": 1, "simplifier": r.choice([0, 0, 1])}
+        runs.append("mode=solve " + " ".join("%s=%s" % kv_ for kv_ in sorted(cfg.items())))
+    vecs = [rand_vec(r, lp.m) for _ in range(2)]
+    return {"lp": lp.text("x"), "vecs": [[dy(x) for x in v] for v in vecs], "runs": runs, "family": lp.family}
+
+
 def parse_lp(text):
     cols, rows, head = [], [], None
     for l in text.splitlines():
@@ -593,6 +618,8 @@ def main():
         ncase, nmax = (60, 6) if ck.tier == "quick" else (6000, 10)
         for k in range(ncase):
             cases.append(gen_case(ck.rng, nmax if ck.rng.random() < 0.7 else 3))
+        for k in range(8 if ck.tier == "quick" else 150):
+            cases.append(gen_tall_case(ck.rng))
 
     text = "".join(case_text("c%d" % k, c) for k, c in enumerate(cases))
     rc, out, err = lpgen.run_harness(exe, text, "C05", timeout=3000)
